@@ -379,7 +379,11 @@ BinValue(lf) ==
     [] lf.k = "u" /\ lf.a \in {"pres1", "presnz"} -> {Mu("set", "v0"), Mu("set", "v1"), Mu("set", "v2"), Mu("set", "max")}
     [] lf.k = "u" /\ lf.a = "feat"    -> {Mu("set", "v0"), Mu("set", "v1"), Mu("set", "v2"), Mu("set", "v3"), Mu("set", "max")}
     [] lf.k = "u" /\ lf.a = "flags"   -> {Mu("flip", Str(b)) : b \in FlagBits(lf)}
-    [] lf.k = "u" /\ lf.a = "len"     -> {Mu("set", "v0"), Mu("set", "dec"), Mu("set", "inc"), Mu("set", "max")}
+    \* a length prefix: 0, one less, one more, the largest value, and the values around the END OF THE
+    \* INPUT: "rem" = exactly the bytes that follow the prefix, "rem1" = one more than that, "tot" = the
+    \* bytes that follow plus the prefix itself (the classic place for an off-by-the-prefix bounds check)
+    [] lf.k = "u" /\ lf.a = "len"     -> {Mu("set", "v0"), Mu("set", "dec"), Mu("set", "inc"), Mu("set", "max"),
+                                          Mu("set", "rem"), Mu("set", "rem1"), Mu("set", "tot")}
     [] lf.k = "u" /\ lf.a = "cnt"     -> {Mu("set", "v0"), Mu("set", "inc"), Mu("set", "max")}
     [] lf.k = "blob" /\ lf.a = "bech32" -> {Mu("nonutf8", ""), Mu("char", "flip"), Mu("fill", "zero")}
     [] lf.k = "blob" /\ lf.a = "raw"  -> {Mu("fill", "zero")}
@@ -502,7 +506,9 @@ SubOverflow(site) == IF OverflowChecks THEN [t |-> "panic", site |-> site] ELSE 
 LenEff(ly, Ls, j, mu, sh) ==
   LET lf == Ls[j] IN
   CASE lf.n = "payload_len" ->        \* read_bytes_len_prefix; payload is the last field
-         (CASE mu.a = "v0" -> E("innererr") [] mu.a = "dec" -> E("innererr") [] mu.a = "inc" -> E("err") [] OTHER -> E("err"))
+         (CASE mu.a = "v0" -> E("innererr") [] mu.a = "dec" -> E("innererr") [] mu.a = "inc" -> E("err")
+            [] mu.a = "rem" -> E("cont")     \* the payload is the last field: unchanged
+            [] OTHER -> E("err"))
     [] lf.n = "opt_len" ->            \* bytes_to_payload (u32) minus the encoded sender, then skipped byte by byte
          LET orig0 == ~sh.pack.sender IN
          (CASE mu.a = "v0"  -> IF orig0 THEN E("cont") ELSE SubOverflow("types.rs::SlatepackBin::read#sub-overflow")
@@ -513,7 +519,8 @@ LenEff(ly, Ls, j, mu, sh) ==
          (CASE mu.a = "v0"  -> E("err")
             [] mu.a = "dec" -> E("err")      \* the last metadata field (an address, or the flags themselves) is cut: EOF
             [] mu.a = "inc" -> E("innerany")
-            [] OTHER        -> E("err"))     \* meta_len + 4 beyond the plaintext: "Invalid encrypted metadata length"
+            [] mu.a = "rem" -> E("innererr")  \* the metadata takes the whole plaintext (trailing bytes are not looked at): empty slate
+            [] OTHER        -> E("err"))     \* meta_len + 4 beyond the plaintext (max, rem1, tot): "Invalid encrypted metadata length"
     [] lf.a = "len" /\ \E i \in DOMAIN Ls : Ls[i].n = lf.of /\ Ls[i].a = "bech32" -> E("err")   \* bech32 text cut / extended / empty
     [] lf.a = "len" /\ \E i \in DOMAIN Ls : Ls[i].n = lf.of /\ Ls[i].a = "raw" ->              \* RangeProof::read: min(len, MAX_PROOF_SIZE)
          (CASE mu.a \in {"inc", "max"} -> E("cont") [] OTHER -> Havoc_Misaligned)
